@@ -133,6 +133,13 @@ def gen(rng, sid):
             n = rng.choice([6, 16])
             f = int.from_bytes(rndbuf(rng, n), 'big')
             cnt = rng.choice([0, 1, 2, 3, 5, 255, 256, 700])
+            if rng.random() < 0.6:
+                # start just below a carry out of the j low octets (j = 1 .. n-1: every octet boundary, the 2^64 boundary of an
+                # IPv6 address, the carry into the first octet), so that iteration crosses it
+                j = rng.randrange(1, n)
+                hi = rng.randrange(0, (1 << 8 * (n - j)) - 1)
+                f = (hi << 8 * j) | ((1 << 8 * j) - 1 - rng.choice([0, 0, 1, 3]))
+                cnt = rng.choice([2, 5, 9, 300])
             l = min(f + cnt, (1 << 8 * n) - 1)
             hosts = rng.randrange(2)
             lines.append('bufit x%s x%s %d %d' % (f.to_bytes(n, 'big').hex(), l.to_bytes(n, 'big').hex(), hosts, rng.choice([3, 2000])))
